@@ -20,7 +20,12 @@ for stack and the binary operations), the element type OF EACH ARGUMENT (equal o
 value range (small numbers for arithmetic; the full range of each type, halves and large magnitudes for the
 operations that only move or compare values), memory layout of the arguments (C, Fortran, strided view, read-only),
 one object passed in two positions, the same call repeated on the same objects, axis / index in every legal form
-(int, NumPy integer scalar, list, integer arrays of several types); for xarray objects also HOW EACH ARGUMENT STORES ITS
+(int, NumPy integer scalar, 0-d array, list, list of NumPy integers, integer arrays of every integer type); the index
+SEQUENCES of take by structure, not only random positions (gen_take_idx: ascending runs, runs permuted / rotated / reversed /
+with repeated positions, constant steps, permutations of the whole axis, one position repeated, the ends, more positions
+than the axis has, one, none, positions counted from the end mixed in), every family on every back-end (gen_take_sweep), and
+EVERY sequence of up to 3 (thorough: 4) positions over an axis of up to 3 (4) elements (gen_take_exhaustive); xarray's take by
+position (isel, the default, named or not) and by label (sel: the labels at those positions; no index: positions); for xarray objects also HOW EACH ARGUMENT STORES ITS
 DIMENSIONS: the names (any, not d0 < d1 < ...), the order (every argument, and each variable of a Dataset, may hold the same
 named dimensions in another order: a .transpose()d field), index coordinates (present / absent, the same labels held in
 another order by some argument), array names / attributes / scalar coordinates, dask-chunked data, arguments with fewer
@@ -53,11 +58,14 @@ ASSUMPTIONS = [
     "tensors in the theorems are valid (body conforms to shape) -- the invariant of a NumPy array; the checker verifies it for every emitted case",
     "'every partition into batches' is read as reduce()/_batch_transform batches: a batch of one argument is passed through unchanged (a single argument means 'reduce inside the array' in this library); at least two batches",
     "equality of results treats any two failures as equal (res_eqv): the error type of a shape mismatch may differ between batched and unbatched evaluation",
+    "a single-argument reduction over SEVERAL axes at once (tuple of positions / list of dimension names) is not modelled: compared with NumPy by the oracle only",
     "general NumPy broadcasting is not modelled (binary operations: equal shapes or one 0-d/scalar operand; stack/reductions: equal shapes); broadcast cases are compared with NumPy by the oracle only",
     "xarray objects are modelled as tensors with named axes (Backends/Named.v): arguments are matched by dimension NAME whatever order each stores its dimensions in, and an argument lacking a dimension of the first is broadcast over it; 'the value NumPy gives for the same data' is read on the data brought to one common dimension order (and, for index coordinates, one common label order): that is xarray's data model, positions of a labelled array carry no meaning across arguments",
     "index labels are outside the Coq model: the harness undoes label permutations (by .sel on the result, by generating the permuted arguments from the unpermuted data) before the comparison in Coq; the oracle compares the implementation by label directly",
     "the ORDER of the dimensions of an xarray result is demanded only where every argument stores its dimensions in the same order (then: that order); for differently stored arguments the oracle compares by name (the new dimension of stack must still sit at `axis`), the Coq model predicts the first argument's order (DataArray)",
-    "take: indices are an int, a NumPy integer scalar, a list of ints or an integer ndarray of any integer type (the documented domain); tuples are not exercised (xarray reads a tuple as a Variable spec)",
+    "take: indices are an int, a NumPy integer scalar, a 0-d integer array, a list of ints / of NumPy integers (of one signedness), or a 1-d integer ndarray of any integer type, possibly empty (the documented domain: 'int or Array of int'); tuples are not exercised (xarray reads a tuple as a Variable spec), boolean masks are not (NumPy's take reads them as 0/1, xarray as a mask)",
+    "take(..., method='sel') on an xarray object selects by index LABEL: 'the value NumPy gives for the same indices' is read as numpy.take at the positions that carry those labels (labels are distinct); on a dimension without an index xarray's sel counts positions, as isel does.  Labels are outside the Coq model: the case is emitted with the positions",
+    "Backends/Slice.v (slice_op, take_fast) models what a back-end MAY do instead of fancy indexing; the repository's take does not slice, so these definitions are tied to the code only through take_op (C15_take_slice_shortcut_sound: the exact shortcut IS take_op)",
 ]
 
 HEADER = """From Coq Require Import List NArith ZArith QArith Qcanon String.
@@ -79,7 +87,11 @@ COQ_DTYPE = {"bool": "DBool", "int8": "DI8", "int16": "DI16", "int32": "DI32", "
 EXACT_OPS = {"sum", "prod", "min", "max", "add", "subtract", "multiply", "stack", "concat", "take"}
 STRUCTURAL = {"stack", "concat", "take", "min", "max"}      # never round, whatever the data
 LAYOUTS = ["c", "c", "c", "f", "strided", "reversed", "readonly"]
-IDX_DTYPES = ["int8", "int16", "int32", "int64", "uint8", "uint32"]
+IDX_DTYPES = ["int8", "int16", "int32", "int64", "uint8", "uint16", "uint32", "uint64"]      # every integer type
+SCALAR_IDX = ("int", "npint", "zerod")               # index forms that remove the dimension
+# index sequences of take, by structure (a fast path for 'nice' index lists is wrong on the lists that only look nice)
+TAKE_FAMILIES = ["random", "run", "run_perm", "run_repeat", "desc", "step", "full_perm", "repeat", "ends", "long", "single",
+                 "empty", "allneg", "rotated"]
 DIMS = ["d0", "d1", "d2", "d3"]
 NAME_POOL = ["x", "y", "lat", "lon", "time", "step", "Z", "a", "d3", "d1", "d0", "number", "level", "new2", "dim_0"]
 MULTI_FORMS = ("multi", "stack", "concat", "bin", "batch")      # forms in which several arrays meet
@@ -194,8 +206,9 @@ def rand_perm(rng, r, identity=0.35):
 
 
 def gen_labels(rng, n):
-    """index labels of one dimension: distinct, NOT necessarily sorted (ints ascending / shuffled / descending, strings)"""
-    kind = rng.choice(["asc", "asc", "shuffled", "desc", "str"])
+    """index labels of one dimension: distinct, NOT necessarily sorted (ints ascending / shuffled / descending, strings), and
+    integer labels that could be mistaken for positions (0..n-1 in another order, 1..n)"""
+    kind = rng.choice(["asc", "asc", "shuffled", "desc", "str", "perm0", "rev0", "from1"])
     L = [10 * i + 5 for i in range(n)]
     if kind == "shuffled":
         rng.shuffle(L)
@@ -203,7 +216,127 @@ def gen_labels(rng, n):
         L.reverse()
     elif kind == "str":
         L = [f"m{(7 * i + 3) % 23}" for i in range(n)]
+    elif kind == "perm0":
+        L = list(range(n))
+        rng.shuffle(L)
+    elif kind == "rev0":
+        L = list(range(n))[::-1]
+    elif kind == "from1":
+        L = list(range(1, n + 1))
     return L
+
+
+def scalar_idx(c):
+    return c["idx_kind"] in SCALAR_IDX
+
+
+def gen_take_idx(rng, n, family, signed=True):
+    """positions along an axis of n >= 1 elements (each in [-n, n-1]), by structure: an ascending run, a run permuted /
+    rotated / reversed / with some of its positions repeated (as many positions as the run has: first, last and length
+    alone do not tell it from the run), constant steps, a permutation of the whole axis, one position repeated, the two
+    ends, more positions than the axis has, one position, none; any of them with some positions counted from the end"""
+    L = min(n, rng.randint(2, max(2, min(n, 5))))
+    lo = rng.randint(0, n - L)
+    run = list(range(lo, lo + L))
+    if family == "random":
+        idx = [rng.randint(0, n - 1) for _ in range(rng.randint(1, 5))]
+    elif family == "run":
+        idx = run
+    elif family == "run_perm":
+        idx = list(run)
+        for _ in range(8):
+            rng.shuffle(idx)
+            if idx != run:
+                break
+        if rng.random() < 0.4 and L >= 3:       # the ends in place, the inside permuted
+            mid = run[1:-1]
+            rng.shuffle(mid)
+            idx = [run[0]] + mid + [run[-1]]
+    elif family == "run_repeat":
+        idx = [rng.choice(run) for _ in run]
+        if rng.random() < 0.6:                  # the ends in place, the inside drawn with repeats
+            idx[0], idx[-1] = run[0], run[-1]
+        if rng.random() < 0.4:
+            idx.sort()
+    elif family == "desc":
+        idx = run[::-1]
+    elif family == "rotated":
+        r = rng.randint(1, max(1, L - 1))
+        idx = run[r:] + run[:r]
+    elif family == "step":
+        idx = list(range(rng.randint(0, min(1, n - 1)), n, rng.choice([2, 2, 3])))
+        if rng.random() < 0.35:
+            idx.reverse()
+    elif family == "full_perm":
+        idx = list(range(n))
+        rng.shuffle(idx)
+    elif family == "repeat":
+        idx = [rng.randint(0, n - 1)] * rng.randint(2, 4)
+    elif family == "ends":
+        idx = rng.choice([[0, n - 1], [n - 1, 0], [0, n - 1, 0], [n - 1, n - 1, 0], [0, 0, n - 1]])
+    elif family == "long":
+        idx = [rng.randint(0, n - 1) for _ in range(rng.randint(n + 1, 2 * n + 1))]
+    elif family == "single":
+        idx = [rng.randint(0, n - 1)]
+    elif family == "empty":
+        idx = []
+    elif family == "allneg":
+        idx = [p - n if signed else p for p in (run if rng.random() < 0.6 else run[::-1])]
+    else:
+        raise ValueError(family)
+    if signed and family != "allneg" and rng.random() < 0.3:
+        idx = [p - n if rng.random() < 0.5 else p for p in idx]
+    return idx
+
+
+def take_shape(rng):
+    """shape and axis of a take: the axis taken from has up to 6 elements (room for runs, steps, permutations)"""
+    s = gen_shape(rng, min_rank=1)
+    ax = rng.randint(-len(s), len(s) - 1)
+    a = norm_axis(ax, len(s))
+    s[a] = rng.choice([1, 2, 3, 4, 4, 5, 5, 6])
+    while math.prod(s) > 48:
+        j = rng.choice([i for i in range(len(s)) if i != a])
+        s[j] = max(1, s[j] - 1)
+    return s, ax
+
+
+def take_args(rng, c, s, ax, xr_, family=None, kind=None, method=None, malformed=False):
+    """the index argument of a take: structure (family), form (int, NumPy integer scalar, 0-d array, list, list of NumPy
+    integers, ndarray), integer type, and -- xarray -- the selection method (positions: isel, the default, given or not;
+    labels: sel)"""
+    n = s[norm_axis(ax, len(s))]
+    kind = kind or rng.choice(["int", "npint", "zerod", "list", "list", "nplist", "ndarray", "ndarray", "ndarray"])
+    idt = "int64" if malformed else rng.choice(IDX_DTYPES)
+    signed = not idt.startswith("uint")
+    family = family or (rng.choice(TAKE_FAMILIES) if rng.random() < 0.7 else "random")
+    if kind in SCALAR_IDX:
+        idx = rng.choice([0, n - 1, -1, -n, rng.randint(-n, n - 1)]) if signed else rng.choice([0, n - 1, rng.randint(0, n - 1)])
+        family = "scalar"
+    elif family == "random":
+        idx = [rng.randint(-n if signed else 0, n - 1) for _ in range(rng.randint(1, 5))]
+    else:
+        idx = gen_take_idx(rng, n, family, signed)
+    if method is None and xr_:
+        method = rng.choice([None, None, None, "isel", "sel", "sel"])
+    c.update(shapes=[s], axis=ax, idx=idx, idx_kind=kind, idx_dtype=idt, idx_family=family, dim_by=rng.choice(["int", "name"]))
+    if method and xr_:
+        c["method"] = method
+
+
+def force_label(rng, c, p=0.7):
+    """selection by label needs labels: give the dimension taken from an index coordinate (most of the time; without
+    one xarray's sel counts positions)"""
+    if c.get("method") != "sel" or c["backend"] == "numpy" or rng.random() >= p:
+        return
+    names, rank = names_of(c), len(c["shapes"][0])
+    a = norm_axis(c["axis"], rank)
+    labels = dict(c.get("labels") or {})
+    if names[a] not in labels:
+        labels[names[a]] = gen_labels(rng, c["shapes"][0][a])
+        c["labels"] = labels
+    if c["backend"] == "dataset":
+        c["dim_by"] = "name"
 
 
 def decorate_xr(rng, c, perm_p=0.4, multi_arg=None):
@@ -300,6 +433,12 @@ def gen_case(rng, malformed=False):
                 c["dim_by"] = rng.choice(["name", "name", "list", "axis"])
             elif backend == "dataset":
                 c["dim_by"] = rng.choice(["name", "name", "list"])      # Dataset reductions refuse axis=
+            if len(s) >= 2 and c["axis"] is not None and not malformed and rng.random() < 0.2:
+                # several axes at once (a tuple of positions; for xarray a list of names), in any order, some counted from the end
+                axes = rng.sample(range(len(s)), rng.randint(2, len(s)))
+                c["axes"] = [a - len(s) if rng.random() < 0.3 else a for a in axes]
+                if backend != "numpy":
+                    c["dim_by"] = "list"
     elif form == "stack":
         c["op"] = "stack"
         k = rng.randint(1, 6)
@@ -331,17 +470,8 @@ def gen_case(rng, malformed=False):
         c["shapes"], c["axis"] = shapes, ax
     elif form == "take":
         c["op"] = "take"
-        s = gen_shape(rng, min_rank=1)
-        ax = rng.randint(-len(s), len(s) - 1)
-        n = s[norm_axis(ax, len(s))]
-        kind = rng.choice(["int", "int", "npint", "list", "ndarray", "ndarray"])
-        idt = "int64" if malformed else rng.choice(IDX_DTYPES)
-        low = 0 if idt.startswith("uint") else -n
-        if kind in ("int", "npint"):
-            idx = rng.randint(low, n - 1)
-        else:
-            idx = [rng.randint(low, n - 1) for _ in range(rng.randint(1, 4))]
-        c.update(shapes=[s], axis=ax, idx=idx, idx_kind=kind, idx_dtype=idt, dim_by=rng.choice(["int", "name"]))
+        s, ax = take_shape(rng)
+        take_args(rng, c, s, ax, backend != "numpy", malformed=malformed)
     else:
         op = rng.choice(list(BINARY))
         c["op"] = op
@@ -397,10 +527,14 @@ def gen_case(rng, malformed=False):
             c["dtypes"][j] = c["dtypes"][i]
     if rng.random() < 0.3:
         c["twice"] = True
+    if backend == "numpy" and form in ("single", "stack", "concat") and c.get("axis") is not None and not c.get("axes") and rng.random() < 0.15:
+        c["axis_np"] = rng.choice(INTS)          # the axis as a NumPy integer scalar
     if malformed:
         make_malformed(rng, c)
     else:
         decorate_xr(rng, c)
+        if form == "take":
+            force_label(rng, c)
     return c
 
 
@@ -426,7 +560,8 @@ def make_malformed(rng, c):
         s = c["shapes"][0]
         n = s[norm_axis(c["axis"], len(s))]
         bad = rng.choice([n, n + 1, -n - 1])
-        c["idx"] = bad if c["idx_kind"] in ("int", "npint") else list(c["idx"]) + [bad]
+        c["idx"] = bad if scalar_idx(c) else list(c["idx"]) + [bad]
+        c.pop("method", None)
     elif f == "single" and c["shapes"][0] and c["op"] in ("sum", "prod", "min", "max"):
         r = len(c["shapes"][0])
         c["axis"] = rng.choice([r, r + 1, -r - 1])
@@ -554,6 +689,89 @@ def gen_named_sweep(rng, rounds):
     return out
 
 
+def take_case(rng, backend, s, ax, **kw):
+    dt = rng.choice(MODEL_DTYPES)
+    c = {"backend": backend, "form": "take", "op": "take", "dtype": dt, "dtypes": [dt], "style": "int"}
+    take_args(rng, c, list(s), ax, backend != "numpy", **kw)
+    c["swept"] = True
+    c["datas"] = [[(7 * i + 3) % 23 - 4 for i in range(math.prod(s))]] if dt.startswith("int") else [[float((7 * i + 3) % 23 - 4) for i in range(math.prod(s))]]
+    return c
+
+
+def gen_take_sweep(rng, rounds):
+    """take, systematically: every structured family of index sequences x every back-end x list / list of NumPy integers /
+    ndarray (every integer type over the rounds) x positions / labels, axis by number and by name; and the scalar forms"""
+    out = []
+    for _ in range(rounds):
+        for backend in ("numpy", "dataarray", "dataset"):
+            xr_ = backend != "numpy"
+            for family in TAKE_FAMILIES:
+                for kind in ("list", "ndarray", rng.choice(["nplist", "ndarray"])):
+                    for method in ((None, "sel") if xr_ else (None,)):
+                        s, ax = take_shape(rng)
+                        a = norm_axis(ax, len(s))
+                        if s[a] < 3 and family not in ("single", "empty", "repeat"):
+                            s[a] = rng.choice([3, 4, 5, 6])
+                        c = take_case(rng, backend, s, ax, family=family, kind=kind,
+                                      method=method if method else rng.choice(["", "", "isel"]))
+                        if not c.get("method"):
+                            c.pop("method", None)
+                        if rng.random() < 0.3:
+                            c["layouts"] = [rng.choice(LAYOUTS)]
+                        if rng.random() < 0.25:
+                            c["twice"] = True
+                        decorate_xr(rng, c, perm_p=0.25)
+                        force_label(rng, c, p=0.8)
+                        out.append(c)
+            for kind in SCALAR_IDX:
+                for method in ((None, "sel") if xr_ else (None,)):
+                    s, ax = take_shape(rng)
+                    c = take_case(rng, backend, s, ax, kind=kind, method=method or "")
+                    if not c.get("method"):
+                        c.pop("method", None)
+                    decorate_xr(rng, c, perm_p=0.25)
+                    force_label(rng, c, p=0.8)
+                    out.append(c)
+    return out
+
+
+def gen_take_exhaustive(rng, nmax, lmax):
+    """small scope, completely: EVERY sequence of at most lmax positions (each in [-n, n-1]) along an axis of n <= nmax
+    elements, on every back-end (list or ndarray, positions or labels: drawn)"""
+    import itertools
+    out = []
+    for n in range(1, nmax + 1):
+        for L in range(0, lmax + 1):
+            for idx in itertools.product(range(-n, n), repeat=L):
+                for backend in ("numpy", "dataarray", "dataset"):
+                    lead = rng.random() < 0.5
+                    s, ax = ([n, 2], rng.choice([0, -2])) if lead else ([2, n], rng.choice([1, -1]))
+                    c = {"backend": backend, "form": "take", "op": "take", "dtype": "int64", "dtypes": ["int64"], "style": "int",
+                         "shapes": [s], "axis": ax, "idx": list(idx), "idx_kind": rng.choice(["list", "ndarray"]), "idx_dtype": "int64",
+                         "idx_family": "exhaustive", "dim_by": rng.choice(["int", "name"]), "exhaustive": True,
+                         "datas": [[10 * (i // s[1]) + i % s[1] for i in range(2 * n)]]}
+                    if backend != "numpy" and rng.random() < 0.3:
+                        c["method"] = "sel"
+                        force_label(rng, c, p=0.7)
+                    out.append(c)
+        # ... and every single position, in every scalar form, by position and by label
+        for pos in range(-n, n):
+            for backend in ("numpy", "dataarray", "dataset"):
+                for kind in SCALAR_IDX:
+                    for method in ((None, "sel") if backend != "numpy" else (None,)):
+                        lead = rng.random() < 0.5
+                        s, ax = ([n, 2], rng.choice([0, -2])) if lead else ([2, n], rng.choice([1, -1]))
+                        c = {"backend": backend, "form": "take", "op": "take", "dtype": "int64", "dtypes": ["int64"], "style": "int",
+                             "shapes": [s], "axis": ax, "idx": pos, "idx_kind": kind, "idx_dtype": rng.choice(INTS if pos < 0 else IDX_DTYPES),
+                             "idx_family": "exhaustive", "dim_by": rng.choice(["int", "name"]), "exhaustive": True,
+                             "datas": [[10 * (i // s[1]) + i % s[1] for i in range(2 * n)]]}
+                        if method:
+                            c["method"] = method
+                            force_label(rng, c, p=1.0)
+                        out.append(c)
+    return out
+
+
 # ----------------------------------------------------------------------------- running
 def relayout(a, how):
     """the same values held differently: Fortran order, a strided view into a larger buffer, a doubly reversed view, read-only"""
@@ -650,6 +868,43 @@ def wrap(c, arrs):
     return objs
 
 
+def take_by_label(c):
+    if c.get("method") != "sel" or c["backend"] == "numpy":
+        return False
+    names, rank = names_of(c), len(c["shapes"][0])
+    return names[norm_axis(c["axis"], rank)] in (c.get("labels") or {})
+
+
+def take_index(c):
+    """the index argument as the caller passes it.  c["idx"] holds POSITIONS; selection by label (method='sel' on a
+    dimension that has an index coordinate) passes the labels at those positions"""
+    idx, kind, dt = c["idx"], c["idx_kind"], c.get("idx_dtype", "int64")
+    L = None
+    if c.get("method") == "sel" and c["backend"] != "numpy":
+        names, rank = names_of(c), len(c["shapes"][0])
+        L = (c.get("labels") or {}).get(names[norm_axis(c["axis"], rank)])
+    if L is not None:
+        n = len(L)
+        idx = L[idx % n] if kind in SCALAR_IDX else [L[p % n] for p in idx]
+        if isinstance(L[0], str):
+            if kind in SCALAR_IDX:
+                return np.str_(idx) if kind != "int" else idx
+            if kind == "ndarray":
+                return np.array(idx, dtype=np.asarray(L).dtype)
+            return [np.str_(x) for x in idx] if kind == "nplist" else idx
+    if kind == "ndarray":
+        return np.array(idx, dtype=dt)
+    if kind == "npint":
+        return np.dtype(dt).type(idx)
+    if kind == "zerod":
+        return np.array(idx, dtype=dt)
+    if kind == "nplist":
+        # NumPy integers, not all of one width (of one signedness: NumPy itself makes float64 of int8 next to uint64)
+        fam = UINTS if dt.startswith("uint") else INTS
+        return [np.dtype(fam[(fam.index(dt) + j) % 4] if j % 2 else dt).type(x) for j, x in enumerate(idx)]
+    return idx
+
+
 def call_impl(c, objs):
     bk = B()
     f, op, b, ax = c["form"], c["op"], c["backend"], c.get("axis")
@@ -660,9 +915,15 @@ def call_impl(c, objs):
     if f == "multi":
         kw = {} if ax is None else {"axis": ax}
         return getattr(bk, op)(*objs, **kw)
+    if c.get("axis_np") and ax is not None and not xr_:
+        ax = np.dtype(c["axis_np"]).type(ax)
     if f == "single":
         if ax is None:
             return getattr(bk, op)(objs[0])
+        if c.get("axes"):
+            if not xr_:
+                return getattr(bk, op)(objs[0], axis=tuple(c["axes"]))
+            return getattr(bk, op)(objs[0], dim=[names[norm_axis(a, rank)] for a in c["axes"]])
         if not xr_:
             return getattr(bk, op)(objs[0], axis=ax)
         d, by = names[norm_axis(ax, rank)], c.get("dim_by", "name")
@@ -675,18 +936,14 @@ def call_impl(c, objs):
     if f == "concat":
         return bk.concat(*objs, dim=names[norm_axis(ax, rank)]) if xr_ else bk.concat(*objs, axis=ax)
     if f == "take":
-        idx = c["idx"]
-        if c["idx_kind"] == "ndarray":
-            idx = np.array(idx, dtype=c.get("idx_dtype", "int64"))
-        elif c["idx_kind"] == "npint":
-            idx = np.dtype(c.get("idx_dtype", "int64")).type(idx)
         dim = ax
         if xr_ and c.get("dim_by") == "name":
             dim = names[norm_axis(ax, rank)]
         elif xr_:
             pos = held0.index(norm_axis(ax, rank))      # an integer dim counts in the array's own order of dimensions
             dim = pos - rank if ax < 0 else pos
-        return bk.take(objs[0], idx, dim=dim)
+        kw = {"method": c["method"]} if xr_ and c.get("method") else {}
+        return bk.take(objs[0], take_index(c), dim=dim, **kw)
     if f == "bin":
         second = objs[1]
         if c["second"] == "scalar":
@@ -700,7 +957,7 @@ def np_ref(c, arrs):
     if f == "multi":
         return getattr(np, op)(np.stack(np.broadcast_arrays(*arrs) if c.get("broadcast") else arrs), axis=0)
     if f == "single":
-        return getattr(np, op)(arrs[0], axis=ax)
+        return getattr(np, op)(arrs[0], axis=tuple(c["axes"]) if c.get("axes") else ax)
     if f == "stack":
         return np.stack(np.broadcast_arrays(*arrs) if c.get("broadcast") else arrs, axis=ax)
     if f == "concat":
@@ -718,12 +975,15 @@ def expected_dims(c):
     rank = len(c["shapes"][0])
     dims = names_of(c)[:rank]
     f, ax = c["form"], c.get("axis")
+    if f == "single" and c.get("axes"):
+        gone = {norm_axis(a, rank) for a in c["axes"]}
+        return [d for i, d in enumerate(dims) if i not in gone]
     if f == "single":
         return [] if ax is None else [d for i, d in enumerate(dims) if i != norm_axis(ax, rank)]
     if f == "stack":
         a = norm_axis(ax, rank + 1)
         return dims[:a] + [c.get("newdim", "new")] + dims[a:]
-    if f == "take" and c["idx_kind"] in ("int", "npint"):
+    if f == "take" and scalar_idx(c):
         return [d for i, d in enumerate(dims) if i != norm_axis(ax, rank)]
     return dims
 
@@ -897,7 +1157,7 @@ def oracle_values(c, res):
 
 
 def describe(c):
-    extra = {k: c[k] for k in ("axis", "idx", "second", "alias", "layouts", "dim_by", "names", "newdim", "perms", "perms_w", "labels", "lperms", "deco", "chunked", "broadcast") if k in c and c[k] is not None}
+    extra = {k: c[k] for k in ("axis", "axes", "axis_np", "idx", "idx_kind", "idx_dtype", "method", "second", "alias", "layouts", "dim_by", "names", "newdim", "perms", "perms_w", "labels", "lperms", "deco", "chunked", "broadcast") if k in c and c[k] is not None}
     dts = dtypes_of(c)
     dt = dts[0] if len(set(dts)) == 1 else "types " + ",".join(dts)
     return f"backends.{c['op']} [{c['backend']}, {c['form']}, {dt}, shapes {c['shapes']}, {extra}]"
@@ -940,7 +1200,7 @@ def ccall(c, var=0):
         return f"CConcat {clist(ts)} {cz(ax)}"
     if f == "take":
         idx = c["idx"]
-        i = f"(inl {cz(idx)})" if c["idx_kind"] in ("int", "npint") else "(inr [" + ";".join(str(int(x)) for x in idx) + "]%Z)"
+        i = f"(inl {cz(idx)})" if scalar_idx(c) else "(inr [" + ";".join(str(int(x)) for x in idx) + "]%Z)"
         return f"CTake {ts[0]} {i} {cz(ax)}"
     return f"CBin {cstr(BINARY[op])} {ts[0]} {ts[1]}"
 
@@ -975,8 +1235,8 @@ def in_model(c, kind, out, named=False):
     of the signed and floating types), finite results, integral exponents; no broadcasting by position (the named model
     broadcasts by dimension name: named=True)"""
     dts = dtypes_of(c)
-    if any(dt not in COQ_DTYPE for dt in dts) or (c.get("broadcast") and not named):
-        return False
+    if any(dt not in COQ_DTYPE for dt in dts) or (c.get("broadcast") and not named) or c.get("axes"):
+        return False          # (a reduction over several axes at once is compared with NumPy by the oracle only)
     moving = c["op"] in STRUCTURAL
     if not moving and any(dt in EXTRA_DTYPES for dt in dts):
         return False
@@ -1081,7 +1341,7 @@ def cxcall(c, var=0):
         return f"XConcat {clist(ts)} {cstr(names[norm_axis(ax, rank)])}"
     if f == "take":
         idx = c["idx"]
-        i = f"(inl {cz(idx)})" if c["idx_kind"] in ("int", "npint") else "(inr [" + ";".join(str(int(x)) for x in idx) + "]%Z)"
+        i = f"(inl {cz(idx)})" if scalar_idx(c) else "(inr [" + ";".join(str(int(x)) for x in idx) + "]%Z)"
         if c.get("dim_by") == "name" or c["backend"] == "dataset":      # a Dataset counts positions in ITS order of dimensions
             d = f"(inl {cstr(names[norm_axis(ax, rank)])})"
         else:
@@ -1238,7 +1498,7 @@ def translator_markers(ctx=None):
 # ----------------------------------------------------------------------------- driver
 def key_of(c):
     return (c["backend"], c["op"], c["form"], tuple(map(tuple, c["shapes"])), str(c.get("axis")), str(c.get("idx")), tuple(dtypes_of(c)), str(c.get("partition")),
-            str(c.get("perms")), str(c.get("perms_w")))
+            str(c.get("perms")), str(c.get("perms_w")), str(c.get("method")), str(c.get("axes")))
 
 
 def nontrivial(c):
@@ -1258,6 +1518,15 @@ def run_cases(ctx, res, cases, acc):
         for flag in ("broadcast", "alias", "twice", "layouts"):
             if c.get(flag):
                 res.count("held:" + flag)
+        if c.get("axes"):
+            res.count("axis:several at once")
+        if c.get("axis_np"):
+            res.count("axis:NumPy integer scalar")
+        if c["form"] == "take":
+            res.count("take:indices:" + c.get("idx_family", "random") + ":" + c["idx_kind"])
+            res.count("take:index type:" + c.get("idx_dtype", "int64"))
+            if c["backend"] != "numpy":
+                res.count("take:xarray:" + (c.get("method") or "isel (default)") + (" by label" if take_by_label(c) else ""))
         if nontrivial(c):
             res.nontrivial_keys.add(key_of(c))
         if c["backend"] != "numpy":
@@ -1268,6 +1537,13 @@ def run_cases(ctx, res, cases, acc):
                 res.count("held:xarray:arguments store their dimensions in different orders")
         if kind is None:
             continue
+        if c.get("exhaustive") or c.get("swept"):
+            # the small scope and the families are walked completely by the oracle; every eighth case of the small scope and
+            # every second of the sweep is also evaluated in Coq (the model's take is one code path for all of them)
+            tag = "exh" if c.get("exhaustive") else "swp"
+            acc[tag] = acc.get(tag, 0) + 1
+            if acc[tag] % (8 if tag == "exh" else 2):
+                continue
         if c["backend"] != "numpy" and kind == "ok" and in_model(c, kind, out, named=True):
             acc["xseen"] = acc.get("xseen", 0) + 1
         if (c["backend"] != "numpy" and kind == "ok" and in_model(c, kind, out, named=True)
@@ -1322,7 +1598,7 @@ def check_in_coq(res, acc):
 
 def run(ctx, res):
     res.rule = ("a case = one call of one back-end (numpy | xr.DataArray | xr.Dataset) of one operation in one form (multi-argument, single-argument with/without axis, "
-                "stack, concat, take int/list/ndarray, binary with array/0-d/scalar/broadcast operand) with the element type of every argument, shapes, axis, indices, "
+                "stack, concat, take int/NumPy integer/0-d/list/list of NumPy integers/ndarray x index structure x isel/sel, binary with array/0-d/scalar/broadcast operand) with the element type of every argument, shapes, axis, indices, "
                 "or one batched evaluation with a partition; "
                 "non-trivial = rank >= 1 and >= 2 elements; distinct = distinct (backend, op, form, shapes, axis, indices, element types, partition)")
     # (T) translator table == run-time markers
@@ -1358,11 +1634,18 @@ def run(ctx, res):
     bad = [gen_case(rng2, malformed=True) for _ in range(ctx.n(150, 3000))]
     bad = [c for c in bad if c.get("malformed")]
     sweep = gen_sweep(ctx.sub_rng("sweep"), ctx.n(1, 8)) + gen_named_sweep(ctx.sub_rng("named"), ctx.n(1, 10))
+    sweep += gen_take_sweep(ctx.sub_rng("take"), ctx.n(2, 30))
+    sweep += gen_take_exhaustive(ctx.sub_rng("take-small"), ctx.n(3, 4), ctx.n(3, 4))
     acc = {"terms": [], "metas": [], "dterms": [], "dmetas": [], "xterms": [], "xmetas": []}
+    import time
+    t0 = time.time()
     run_cases(ctx, res, cases, acc)
     run_cases(ctx, res, sweep, acc)
     run_cases(ctx, res, bad, acc)
+    t1 = time.time()
     check_in_coq(res, acc)
+    res.extra["phase_s"] = {"oracle on the value cases": round(t1 - t0, 1), "evaluation in Coq": round(time.time() - t1, 1),
+                            "cases in Coq": {k: len(acc[k]) for k in ("terms", "xterms", "dterms")}}
     # (O2) batch law for every function marked at run time
     rng3 = ctx.sub_rng("batch")
     for name in runtime_marked():
@@ -1383,7 +1666,7 @@ def search(ctx, res):
                 oracle_batch(gen_batch_case(rng, name), r2)
                 if r2.failures:
                     return r2.failures[0]
-        for c in gen_sweep(rng, 1) + gen_named_sweep(rng, 2):
+        for c in gen_sweep(rng, 1) + gen_named_sweep(rng, 2) + gen_take_sweep(rng, 4):
             oracle_values(c, r2)
             if r2.failures:
                 return r2.failures[0]
